@@ -337,7 +337,8 @@ def decode_through_steps(mon, spec):
         mode = rng.choice(ctx.legal_modes(0))
         scen.prepare(ctx, rng, kind, w, mode=mode, itpos=itpos, nzcv=(rng.getrandbits(4) & 0b1101) | (c0 << 1))
         scen.step(ctx.cpu)
-        desc = scen.prepare(ctx, rng, kind, w, mode=mode, itpos=itpos, nzcv=(rng.getrandbits(4) & 0b1101) | ((1 - c0) << 1))
+        desc = scen.prepare(ctx, rng, kind, w, mode=mode, itpos=itpos, nzcv=(rng.getrandbits(4) & 0b1101) | ((1 - c0) << 1),
+                            e=rng.randrange(2))        # data endianness either way: the word that reaches the decoder is the word in memory
         cpu = ctx.cpu
         cpu.executed_opcode = None
         rctx = Ctx(C=1 - c0, in_it=itpos != 'out', last_it=itpos == 'last', arch=ctx.cfg['arch_version'], iset='arm' if kind == 'arm' else 'thumb')
@@ -353,6 +354,13 @@ def decode_through_steps(mon, spec):
         word = ('%#06x' if kind == 't16' else '%#010x') % w
         rp = dict(kind=kind, word=word, itpos=itpos, ctx=list(desc['ctx']), cpsr=desc['cpsr'], first_step_carry=c0)
         eo = 'INSTR:' + mon.cmap.get(type(obj).__name__, type(obj).__name__)
+        if obj_f is not None and type(obj_f) is not type(obj):
+            # fetched and decoded by a real step, the word became ANOTHER instruction than a direct decode of the same word
+            # in the very same state gives: decode depends on the word (and the IT position / carry flag) only
+            mon.report('%s|stepped-class-differs-from-direct-decode|%s' % (mon.pid, rname),
+                       '%s (%s): the step executed %s, a direct decode in the same state gives %s (CPSR %s)' % (
+                           word, rname, type(obj).__name__, type(obj_f).__name__, desc['cpsr']), rp)
+            continue
         if eo != 'INSTR:' + rname:
             continue            # class selection is judged by the product enumeration
         got = {k2: mon.DC.norm(v) for k2, v in vars(obj).items() if k2 != 'instruction'}
